@@ -41,7 +41,7 @@ impl<'a> Ctx<'a> {
 		// (bounded: a wallet whose refresh keeps failing must not turn into an endless mining loop)
 		for i in 0..2 {
 			let mut guard = 0;
-			while self.w.wallets[i].info(true, 1).map(|x| x.1.amount_currently_spendable).unwrap_or(0) < 100_000_000_000 && guard < 12 {
+			while self.w.wallets[i].info(true, 1).map(|x| x.1.amount_currently_spendable).unwrap_or(0) < 360_000_000_000 && guard < 14 {
 				if self.w.mine(Some(i), true).is_err() {
 					break;
 				}
@@ -255,7 +255,7 @@ fn refresh_case(cx: &mut Ctx, rng: &mut Rng, role: u8, n_other: usize, others_fi
 		let r = (|| -> Result<(), libwallet::Error> {
 			let wal = &cx.w.wallets[0];
 			let height = cx.w.height();
-			let coin = wal.all_outputs()?.into_iter().filter(|o| o.eligible_to_spend(height, 1) && o.root_key_id == wal.active_account().unwrap()).map(|o| o.value).max().unwrap_or(0);
+			let coin = wal.all_outputs()?.into_iter().filter(|o| o.eligible_to_spend(height, 1) && o.root_key_id == wal.active_account().unwrap()).map(|o| o.value).min().unwrap_or(0);
 			let s = wal.init_send(InitTxArgs { amount: coin, amount_includes_fee: Some(true), minimum_confirmations: 1, max_outputs: 1, num_change_outputs: 1, ttl_blocks: Some(b + 1), selection_strategy_is_use_all: false, ..Default::default() })?;
 			wal.lock_outputs(&s)?;
 			let s2 = cx.w.wallets[1].receive(&s, None)?;
